@@ -248,7 +248,69 @@ inductive SwiftRepo
   | localDir (p : P)     -- a directory: the package is copied there
   | gitPath              -- `git@host:x.git` (parsed as a Path): clone with the plain spelling
   | url                  -- an `HttpUrl`: clone with credentials spliced in
-deriving Repr, Inhabited
+deriving Repr, BEq, DecidableEq, Inhabited
+
+/-! ### the repository address of the Swift package `publish`
+
+`publish.repository : HttpUrl | Path` — one text decides between "copy the package into a directory" (no external command at all)
+and "publish through git" (seven invocation points):
+```
+if isinstance(repository, Path) and not (str(repository).startswith("git@") and repository.suffix == ".git"): copy …
+else: git …
+```
+The rule is modelled on the spelling: pydantic reads `http(s)://authority…` as an `HttpUrl`, everything else becomes a
+`pathlib.Path` (empty components and `.` dropped, a trailing `/` dropped, `..` kept), whose text starts with `git@` iff the path is
+relative and its first component does, and whose `suffix` is the last dot-part of the final component (not a leading dot, not a
+trailing one). Nothing else of the text matters — not the number of path segments after the colon, not `~`, not a leading `/`. -/
+
+/-- split at `/` -/
+def splitSlash : List Char → List (List Char)
+  | [] => [[]]
+  | c :: cs =>
+    match splitSlash cs with
+    | [] => [[c]]
+    | h :: t => if c == '/' then [] :: h :: t else (c :: h) :: t
+
+/-- `pathlib.PurePosixPath(text)`: absolute?, components -/
+def pathParts (cs : List Char) : Bool × List (List Char) :=
+  (cs.head? == some '/', (splitSlash cs).filter (fun c => c != [] && c != ['.']))
+
+def gitAt : List Char := ['g', 'i', 't', '@']
+def dotGit : List Char := ['.', 'g', 'i', 't']
+
+/-- `Path(name).suffix == ".git"`: the name ends with `.git` and that dot is not its first character -/
+def gitSuffix (name : List Char) : Bool := dotGit.isSuffixOf name && decide (4 < name.length)
+
+/-- `str(path).startswith("git@") and path.suffix == ".git"` on the parsed path -/
+def scpLike (isAbs : Bool) (comps : List (List Char)) : Bool :=
+  !isAbs && (match comps.head? with | some h => gitAt.isPrefixOf h | none => false)
+         && (match comps.getLast? with | some l => gitSuffix l | none => false)
+
+/-- pydantic takes the text for an `HttpUrl`: `http://` or `https://` (any letter case) followed by an authority.
+    (Its further URL validation is not modelled; the correspondence run feeds well-formed URLs.) -/
+def isHttp (cs : List Char) : Bool :=
+  let l := cs.map Char.toLower
+  let after (p : List Char) : Bool := p.isPrefixOf l && (match l.drop p.length with | [] => false | c :: _ => c != '/')
+  after ['h', 't', 't', 'p', ':', '/', '/'] || after ['h', 't', 't', 'p', 's', ':', '/', '/']
+
+/-- what `publish` makes of the configured address (`cwd`: the caller's directory, for a relative path through `..`) -/
+def classifyChars (cwd : Path) (cs : List Char) : SwiftRepo :=
+  if isHttp cs then .url
+  else
+    let parts := pathParts cs
+    if scpLike parts.1 parts.2 then .gitPath
+    else
+      let names := parts.2.map String.ofList
+      if parts.1 then .localDir (.abs names)
+      else
+        let ups := (names.takeWhile (· == "..")).length
+        if ups == 0 then .localDir (.rel names) else .localDir (P.upFrom cwd ups (names.drop ups))
+
+def classifyRepo (cwd : Path) (addr : String) : SwiftRepo := classifyChars cwd addr.toList
+
+def SwiftRepo.isRemote : SwiftRepo → Bool
+  | .localDir _ => false
+  | _ => true
 
 structure Cfg where
   key : String
@@ -430,6 +492,16 @@ structure Obs where
   /-- directories the configuration sends the operation to besides the caller's working directory: the resolved `package.out`
       (it holds the build and package directories the tools are started in) — it need not lie below the caller's directory -/
   workRoots : List Path := []
+  /-- per logged invocation the exit status the (stub) tool itself recorded for its own run -/
+  exits : List Nat := []
+  /-- per logged invocation: it is the probe whose failure the caller catches -/
+  handledAt : List Bool := []
+  /-- every command line the operation handed to the shell -/
+  cmdlines : List String := []
+  /-- files and directories that exist after the operation and did not exist before it (from the common root) -/
+  newPaths : List Path := []
+  /-- where the configuration allows the operation to write: the output base; for a publish into a local directory the destination -/
+  allowed : List Path := []
 deriving Repr, Inhabited
 
 /-- The property on one observation. `fault = none`: all tools succeed. `some (k, handled)`: the `k`-th invocation
@@ -448,6 +520,79 @@ def spec (key phase : String) (fault : Option (Nat × Bool)) (maxLogged : Nat) (
     ++ (if o.ranIn.length ≤ maxLogged then [] else ["continued-after-failure"])
     ++ (if phase == "package" then (if o.outAfter.any (isArtifact key) then ["artifact-after-failure"] else [])
         else (if o.outAfter.all o.outBefore.contains then [] else ["output-changed"]))
+
+/-! ### the environment: what the shell makes of a command line
+
+`execute` joins command and arguments with blanks and hands the text to `os.system`, i.e. to `sh -c`. The model's `execute` takes the
+verdict of the *named* tool for the status of the command — true for a simple command. As soon as the text holds a control operator
+the status is that of another command: of the last one of a pipeline (`xcodebuild … | xcpretty`), of the right-hand side of `;`,
+of `true` in `… || true`. -/
+
+inductive Sh
+  | cmd (name : String)
+  | pipe (a b : Sh)
+  | seq (a b : Sh)
+  | and (a b : Sh)
+  | or (a b : Sh)
+  | bg (a : Sh)
+deriving Repr, Inhabited
+
+/-- exit status 0? (`st`: the statuses of the programs) -/
+def Sh.status (st : String → Bool) : Sh → Bool
+  | .cmd n => st n
+  | .pipe _ b => b.status st
+  | .seq _ b => b.status st
+  | .and a b => a.status st && b.status st
+  | .or a b => a.status st || b.status st
+  | .bg _ => true
+
+/-- the command word `execute` was given (the only name it looks up with `shutil.which`) -/
+def Sh.named : Sh → String
+  | .cmd n => n
+  | .pipe a _ | .seq a _ | .and a _ | .or a _ | .bg a => a.named
+
+def Sh.simple : Sh → Bool
+  | .cmd _ => true
+  | _ => false
+
+/-- `execute` with the command line as the shell sees it: found iff the *named* tool is on PATH, status by the shell's rules.
+    `present`/`st`: the environment (which programs exist, how they exit). -/
+def executeSh (present st : String → Bool) (line : Sh) : Res :=
+  if present line.named then (if line.status st then .ok else .err .external) else .err .external
+
+/-- quoting state of the scanner below -/
+inductive Quote
+  | none | single | double
+deriving Repr, BEq, DecidableEq
+
+/-- no control operator (`|`, `&`, `;`, newline) outside quotes: the text is one simple command -/
+def plainChars : Quote → List Char → Bool
+  | _, [] => true
+  | .none, '\\' :: _ :: cs => plainChars .none cs
+  | .none, c :: cs =>
+    if c == '\'' then plainChars .single cs
+    else if c == '"' then plainChars .double cs
+    else if c == '|' || c == '&' || c == ';' || c == '\n' then false
+    else plainChars .none cs
+  | .single, c :: cs => if c == '\'' then plainChars .none cs else plainChars .single cs
+  | .double, '\\' :: _ :: cs => plainChars .double cs
+  | .double, c :: cs => if c == '"' then plainChars .none cs else plainChars .double cs
+
+def dropTrailingBlanks (cs : List Char) : List Char := (cs.reverse.dropWhile (fun c => c == ' ' || c == '\n' || c == '\t')).reverse
+
+/-- a command line that the shell runs as one simple command (a trailing newline ends the command and is harmless) -/
+def plainCommand (s : String) : Bool := plainChars .none (dropTrailingBlanks s.toList)
+
+/-- Clauses on what the harness observes of the environment's side of one operation (evaluated on every observation, with or
+    without an injected fault):
+    * `named-command-status-lost`: a named tool recorded a non-zero exit of its own, no caller handles it, and the operation does
+      not end with code 130 — whatever the shell, a pipeline, a wrapper or a formatter made of that status;
+    * `shell-operator-in-command`: a command line handed to the shell is not one simple command;
+    * `wrote-outside-configured-directories`: something new exists that lies neither below an allowed directory nor on the way to one. -/
+def specObs (o : Obs) : List String :=
+  (if (o.exits.zip o.handledAt).any (fun eh => eh.1 != 0 && !eh.2) && o.code != some 130 then ["named-command-status-lost"] else [])
+  ++ (if o.cmdlines.all plainCommand then [] else ["shell-operator-in-command"])
+  ++ (if o.newPaths.all (fun p => o.allowed.any (fun r => under r p || under p r)) then [] else ["wrote-outside-configured-directories"])
 
 /-- one of several failing invocation points, as the harness describes it from the stub log -/
 structure FaultPt where
